@@ -272,6 +272,12 @@ def fileStem (name : Str) : Str :=
     | none => name
     | some (before, _) => if before.isEmpty then name else before
 
+/-- Last component of `Path::with_extension("")` for a file name that has an extension:
+the stem — except that a stem of `.` (file `..yml`) leaves `..`, because the intermediate
+path `..` has no file name for `set_extension` to work on. -/
+def stemNoExt (name : Str) : Str :=
+  if fileStem name = ['.'] then ['.', '.'] else fileStem name
+
 /-- `Node::parse` + `Node::render` + `NodeInfo::from` = `Reclass::render_node`. -/
 def renderNode (fuel : Nat) (r : Inv) (name : Str) : R NodeInfoM :=
   match findEntity name r.nodes with
@@ -283,8 +289,8 @@ def renderNode (fuel : Nat) (r : Inv) (name : Str) : R NodeInfoM :=
       if r.cfg.composeNodeName then
         match info.path.reverse with
         | [] => []
-        | last :: revInit => revInit.reverse ++ [fileStem last]
-      else [name]
+        | last :: revInit => revInit.reverse ++ [stemNoExt last]
+      else if name.isEmpty then [] else [name]   -- `PathBuf::from(name).iter()`
     let nm : MetaM := { node := name, name := name, uri := uri, environment := Extracted.environment.toList, parts := parts }
     renderNodeSrc fuel r nm src
 
